@@ -4,6 +4,7 @@ import (
 	"context"
 	"errors"
 	"fmt"
+	"runtime"
 	"strings"
 	"sync"
 	"time"
@@ -41,6 +42,26 @@ type putRecorder struct {
 	foreign  []string
 	uses     int
 	yieldUse func(matcher int) // parks the calling goroutine before a use (nil: no yield)
+	// the proxy takes its matchers' buffers in the goroutine of the request; stores that shard on their
+	// own side take theirs (from their own pools) in server goroutines, which are none of C17's business
+	// and may hold locks of the in-process transport
+	requestGoroutine func() bool
+}
+
+// goid returns the runtime's id of the calling goroutine; used only to tell the request's goroutine from
+// server goroutines, never in an operation identity or a logged value.
+func goid() uint64 {
+	var buf [48]byte
+	n := runtime.Stack(buf[:], false)
+	var id uint64
+	for i := len("goroutine "); i < n; i++ {
+		c := buf[i]
+		if c < '0' || c > '9' {
+			break
+		}
+		id = id*10 + uint64(c-'0')
+	}
+	return id
 }
 
 func (r *putRecorder) reset() {
@@ -53,7 +74,7 @@ func (r *putRecorder) event(site string, v any) {
 	switch site {
 	case "shard.get":
 		m, ok := v.(*storepb.ShardMatcher)
-		if !ok || m.VerifBuf() == nil {
+		if !ok || m.VerifBuf() == nil || (r.requestGoroutine != nil && !r.requestGoroutine()) {
 			return
 		}
 		r.mu.Lock()
@@ -93,11 +114,15 @@ func (r *putRecorder) event(site string, v any) {
 			return
 		}
 		r.mu.Lock()
-		r.puts[b]++
-		r.n++
 		if r.owner != nil {
+			if _, proxys := r.owner[b]; !proxys && r.requestGoroutine != nil {
+				r.mu.Unlock()
+				return // a store's own matcher
+			}
 			delete(r.owner, b)
 		}
+		r.puts[b]++
+		r.n++
 		r.mu.Unlock()
 	}
 }
@@ -181,6 +206,10 @@ func runC17Shard(x *simkit.Exec) {
 			}
 		}
 		s.Go("client", func() {
+			me := goid()
+			rec.mu.Lock()
+			rec.requestGoroutine = func() bool { return goid() == me }
+			rec.mu.Unlock()
 			for ri, r := range reqs {
 				for i, c := range cl.clients {
 					c.setFault(r.faults[i])
